@@ -162,3 +162,35 @@ Definition judge_original_roundtrip (c : case) : Z :=
                    then 0 else 3
       end
   end.
+
+(* ---- cases with hash-equal distinct facts under one predicate (added when the check was
+   strengthened after seeding). deterministic_bytes needs the sort key (Atom.Hash, Atom.String) to
+   be injective on the facts of each predicate; that hypothesis is decided here on the observed
+   hashes and printed forms, so that a case of this stream provably lies inside the theorem.
+   Codes: 5 = two facts of one predicate agree on Hash and String (outside the hypothesis),
+          6 = the case was generated to contain a hash tie and has none (generator / hash table
+              mistake), otherwise the code of [judge]. *)
+Fixpoint keys_distinct (ks : list (Z * bytes)) : bool :=
+  match ks with
+  | [] => true
+  | k :: r => negb (existsb (fun k' => (fst k =? fst k') && bytes_eqb (snd k) (snd k')) r) && keys_distinct r
+  end.
+Fixpoint has_dup_z (l : list Z) : bool :=
+  match l with
+  | [] => false
+  | x :: r => existsb (Z.eqb x) r || has_dup_z r
+  end.
+
+Definition key_inj_ok (prints : list bytes) (store : list (bytes * Z * list (list Z))) (hashes : list (list Z)) : bool :=
+  let ht := mk_htable store hashes in
+  forallb (fun e => let '(s, _, rows) := e in
+                    keys_distinct (map (fun r => (t_hash ht s r, atom_string Z (t_print prints) s r)) rows)) store.
+Definition has_tie (store : list (bytes * Z * list (list Z))) (hashes : list (list Z)) : bool :=
+  let ht := mk_htable store hashes in
+  existsb (fun e => let '(s, _, rows) := e in has_dup_z (map (t_hash ht s) rows)) store.
+
+Definition judge_ties (c : case) : Z :=
+  let '(Case prints store hashes astr det file read lhdr queries) := c in
+  if negb (key_inj_ok prints store hashes) then 5
+  else if negb (has_tie store hashes) then 6
+  else judge c.
